@@ -673,8 +673,9 @@ def c03(tier):
     c.notes["fault_programs_per_rule"] = seen_rules
     if len(missing) > (3 if tier == "quick" else 0):
         raise ToolError("vacuity: fault productions never exercised: %s" % missing)
-    c.assumptions = ["SPL rules in SplStatic are my reading of the language report as quoted in the property; the generator's guards are the "
-                     "single formulation (the independent TLA+ checker SplCheck of the design was not built)",
+    c.assumptions = ["SPL rules are my reading of the language report as quoted in the property, stated twice: as guards of the generator "
+                     "SplStatic and as judgements of the checker SplCheck; TLC's invariant CheckAgrees requires on every finished program "
+                     "that SplCheck finds no violation in a program generated as valid and exactly the faulted rule otherwise",
                      "MainIsMissing may be reported anywhere in the document", "missing-token faults: the diagnostic must name the token and lie "
                      "in the global declaration that lacks it; deletions that leave an equal neighbouring token are not faults"]
     c.exhaustive = True
